@@ -96,6 +96,17 @@ CHECKS = {
             dict(harness="C07_Blank"),
         ],
     },
+    "C08": {
+        "quick": [
+            dict(harness="C08_K2", cover=["accepted", "expansion", "unterminated"], bounds="14 here-document sites (<< and <<-, unquoted/'..'/\\/\"..\"/partially quoted delimiters, two here-documents on a line, inside if/{ }/while/$( )/( )) x bodies of 2 symbolic runes over {a E tab newline $ \\ blank} x last delimiter line present/missing"),
+            dict(harness="C08_K3", cover=["accepted", "expansion", "unterminated"], bounds="same sites x bodies of 3 symbolic runes"),
+        ],
+        "thorough": [
+            dict(harness="C08_K2", cover=["accepted", "expansion", "unterminated"]),
+            dict(harness="C08_K3", cover=["accepted", "expansion", "unterminated"]),
+            dict(harness="C08_K4", cover=["accepted", "expansion", "unterminated"], bounds="same sites x bodies of 4 symbolic runes", timeout="40m"),
+        ],
+    },
     "C09": {
         "quick": [
             dict(harness="C09_Layout", cover=["extra-blank", "continuation", "newline-for-semicolon", "comment-before-newline", "blank-line", "comment-line", "comment-at-end"],
@@ -255,6 +266,8 @@ META = {
                 note="outputs are shorter than bufio's 4096-byte buffer, so the writer sees one Write at Flush (the multi-flush path is not exercised); trees with a lone trailing backslash are checked for purity/determinism only (see KF-C05-lone-backslash)"),
     "C07": dict(text="Metamorphic stream check on every path within the bounds: if A alone is accepted and fully consumed, then on the stream A<newline>B the first call returns exactly A's commands and comments and leaves the scanner at the first character of B, and the second call returns B and consumes it through its newline; blank lines give empty results and consume one line. " + BOUNDED,
                 note="A ranges over bounded inputs/templates; B is one fixed simple command; A ending in a backslash or line continuation and comment-only lines (skipped together with following blank lines, as the repository's tests pin) are excluded"),
+    "C08": dict(text="For every site and every value of the symbolic body runes within the bounds, each << / <<- redirection receives exactly the lines a reference here-document reader assigns to it (operator order, byte for byte, delimiter after quote removal, tab-indented delimiter for <<-), the body is expanded iff the delimiter is unquoted, and a missing delimiter line is an error. " + BOUNDED,
+                note="body runes range over a 7-character alphabet (delimiter letter, a, tab, newline, $, backslash, blank); no line continuation inside a body; default deterministic schedule of the lexer/parser pair (schedule variation is C06)"),
     "C09": dict(text="Metamorphic check: for every layout template, every marked boundary and every transformation kind, with symbolic inserted characters, the transformed text is accepted, has the same skeleton (; and newline identified) as the untransformed one, and returns the added comment exactly once with its text. " + BOUNDED,
                 note="one transformation at a time; boundaries are the hand-marked ones of 25 templates (blanks between tokens, ';' separators, newlines where the grammar has linebreak); continuations inside words are excluded as the property says"),
     "C10": dict(text="The fault position is a solver variable: for every position at which the RuneScanner (or io.Reader) starts failing during the call, ParseCommands returns a non-nil error that is the injected error, on every feasible path within the bounds. " + BOUNDED,
